@@ -123,7 +123,7 @@ def render(sc, kind):
         from ..build import derive
 
         e_, g_ = render(sc, "3d")
-        return [derive(o) for o in e_], [derive(o) for o in g_]
+        return [derive(o) for o in e_], [derive(o, 1) for o in g_]
     ests, gts = [], []
     for i in range(sc["ne"]):
         x, y = sc["epos"][i]
